@@ -208,6 +208,11 @@ func (f *frame) run(b *ssa.BasicBlock, st *State, stops map[*ssa.BasicBlock]bool
 			}
 			it.Stats.Forks++
 			M := f.cfg.Ipdom(b)
+			if f.pathSplit() {
+				// small function guarding a panic with correlated tests: keep the two
+				// sides apart until the function exit (path-sensitive evaluation)
+				M = nil
+			}
 			inner := map[*ssa.BasicBlock]bool{}
 			for k := range stops {
 				inner[k] = true
@@ -338,7 +343,7 @@ func (f *frame) loopFromBound(h *ssa.BasicBlock, st *State, stops map[*ssa.Basic
 		}
 		fixIter++
 		thr := f.thresholds()
-		if fixIter >= 6 {
+		if fixIter >= 20 {
 			thr = nil // give up on the ladder: widen to the type bounds
 		}
 		next := it.widenStates(cur, back, fixIter >= 3, thr)
@@ -566,8 +571,20 @@ func (it *Interp) refine(st *State, c *Bool, outcome bool) bool {
 		return true
 	}
 	x := c.Cmp.X
-	r := RefineInt(x, c.Cmp.Op, c.Cmp.C, outcome)
-	if r == x {
+	// refine the current version of the number (an earlier branch may already
+	// have narrowed it: all versions share the VID)
+	cur := x
+	for _, v := range st.env {
+		if iv, ok := v.(*Int); ok && iv.VID == x.VID && iv.W == x.W {
+			cur = iv
+			break
+		}
+	}
+	r, feasible := RefineIntFeasible(cur, c.Cmp.Op, c.Cmp.C, outcome)
+	if !feasible {
+		return false
+	}
+	if r == cur {
 		return true
 	}
 	it.replaceInt(st, x, r)
@@ -605,6 +622,9 @@ func narrowLike(v, nw *Int) *Int {
 	}
 	if r.Lo > r.Hi {
 		return v
+	}
+	if len(nw.Not) > 0 {
+		r.Not = nw.Not
 	}
 	return r.normalize()
 }
@@ -1058,6 +1078,11 @@ func (f *frame) load(st *State, at ssa.Instruction, pv Value, t types.Type) (Val
 			it.Hooks.Deref(st, at, pv, true)
 		}
 		v := st.LoadPtr(p)
+		if it.Hooks.LoadOverride != nil {
+			if nv, ok := it.Hooks.LoadOverride(st, at, p, v); ok {
+				v = nv
+			}
+		}
 		if it.Hooks.Load != nil {
 			it.Hooks.Load(st, at, p, v)
 		}
@@ -1253,7 +1278,11 @@ func (f *frame) indexAddr(st *State, x *ssa.IndexAddr) (Value, bool) {
 			}
 			return np, false
 		case *Slice:
-			f.checkIndex(st, x, idx, p.Len, p.Obj)
+			if p.LenRef != nil {
+				f.checkIndex(st, x, idx, p.Len, p.LenRef)
+			} else {
+				f.checkIndex(st, x, idx, p.Len, p.Obj)
+			}
 			n := int64(-1)
 			if arr, ok := leafTypeAtOrSelf(p.Obj.T, p.Path).(*types.Array); ok {
 				n = arr.Len()
@@ -1377,7 +1406,7 @@ func (f *frame) sliceOp(st *State, x *ssa.Slice) Value {
 		}
 		if it.Hooks.Index != nil {
 			// slice bounds: 0 <= lo <= hi <= len
-			proven := lo.Lo >= 0 && hi.Hi <= arr.Len() && lo.Hi <= hi.Lo
+			proven := lo.Lo >= 0 && hi.Hi <= arr.Len() && (lo.Hi <= hi.Lo || orderedOffsets(lo, hi))
 			one := NewConstInt(64, true, 1)
 			lim, _ := BinInt(token.ADD, n, one)
 			it.Hooks.Index(st, x, hi, lim, proven)
@@ -1397,7 +1426,7 @@ func (f *frame) sliceOp(st *State, x *ssa.Slice) Value {
 			hi = toShape(b.Len, 64, true)
 		}
 		if it.Hooks.Index != nil {
-			proven := lo.Lo >= 0 && lo.Hi <= hi.Lo && (hi.VID == b.Len.VID || hi.Hi <= b.Len.Lo)
+			proven := lo.Lo >= 0 && (lo.Hi <= hi.Lo || orderedOffsets(lo, hi)) && (hi.VID == b.Len.VID || hi.Hi <= b.Len.Lo)
 			one := NewConstInt(64, true, 1)
 			lim, _ := BinInt(token.ADD, toShape(b.Len, 64, true), one)
 			it.Hooks.Index(st, x, hi, lim, proven)
